@@ -127,7 +127,7 @@ fn c05_list(ctx: &mut Ctx, items: &[(Value, &'static str)], data: &Value) {
     }
 }
 
-pub fn c05(ctx: &mut Ctx) {
+fn c05_core(ctx: &mut Ctx) {
     let data = json!({"t": "yes", "f": 0, "deep": {"x": [1]}});
     let datas = [data.clone(), json!({"t": [0], "f": ""}), json!({"t": {"a": 1}, "f": null}), Value::Null];
     let mut p = Probes { n: 0 };
@@ -205,7 +205,7 @@ fn c13_case(ctx: &mut Ctx, rule: &Value, data: &Value, nontrivial: bool) -> Outc
     obs.out
 }
 
-pub fn c13(ctx: &mut Ctx) {
+fn c13_core(ctx: &mut Ctx) {
     let mut p = Probes { n: 0 };
     let outer = json!({"outer": "OUTER", "current": "outer-current", "accumulator": "outer-acc", "a": 1, "k": "x", "items": [3, 1, 2], "nested": [[1, 2], [3], []], "objs": [{"a": 1, "outer": "el"}, {"a": 2}], "mix": [0, "", null, [], [0], "0", {}, false, true, -0.0, 2]});
     let colls: Vec<Value> = vec![json!([]), json!([1]), json!([1, 2, 3]), json!([3, 1, 2]), json!(["a", "b", "c"]), json!([[1, 2], [3], []]), json!([{"a": 1}, {"a": 2}]), json!([0, "", null, [], [0], "0", {}, false]), var("items"), var("nested"), var("objs"), var("mix"), var("nope"), json!(null), json!({"merge": [[1], [2, [3]]]}), json!({"filter": [var("items"), {">": [var(""), 1]}]}), json!({"map": [var("items"), {"*": [var(""), 2]}]})];
@@ -372,7 +372,7 @@ fn c14_case(ctx: &mut Ctx, coll: &Value, pred: &Value, data: &Value, cls: &str) 
     }
 }
 
-pub fn c14(ctx: &mut Ctx) {
+fn c14_core(ctx: &mut Ctx) {
     let mut p = Probes { n: 0 };
     let data = json!({"a": 1, "z": 0, "items": [1, 2, 0], "s": "aé日😀", "empty": [], "str_empty": "", "n": null, "objs": [{"v": 1}, {"v": 0}], "ops": [{"log": "LEAK-el"}, {"var": "a"}], "t": true});
     let preds: Vec<Value> = vec![var(""), json!({"!!": [var("")]}), json!({">": [var(""), 0]}), json!({"==": [var(""), "é"]}), json!({"in": [var(""), "aé"]}), var("v"), var("a"), json!(true), json!(false), json!({"log": var("")}), json!({"===": [var(""), 2]}), json!({"/": [1]}), json!([]), json!("0")];
@@ -524,7 +524,7 @@ fn c04_substitution(ctx: &mut Ctx, op: &str, operands: &[Value], data: &Value) {
     ctx.cell(&format!("substitution:{}", op));
 }
 
-pub fn c04(ctx: &mut Ctx) {
+fn c04_core(ctx: &mut Ctx) {
     let markers: Vec<Value> = vec![
         json!({"log": "LEAK-1"}),
         json!({"var": "secret"}),
@@ -657,4 +657,24 @@ pub fn c04(ctx: &mut Ctx) {
         }
     }
     let _ = type_name;
+}
+
+pub fn c04(ctx: &mut Ctx) {
+    c04_core(ctx);
+    crate::props_sizes::c04(ctx);
+}
+
+pub fn c05(ctx: &mut Ctx) {
+    c05_core(ctx);
+    crate::props_sizes::c05(ctx);
+}
+
+pub fn c13(ctx: &mut Ctx) {
+    c13_core(ctx);
+    crate::props_sizes::c13(ctx);
+}
+
+pub fn c14(ctx: &mut Ctx) {
+    c14_core(ctx);
+    crate::props_sizes::c14(ctx);
 }
